@@ -3,6 +3,7 @@ package props
 import (
 	"errors"
 	"fmt"
+	"math/rand/v2"
 
 	astits "github.com/asticode/go-astits"
 
@@ -17,7 +18,7 @@ func init() {
 		Level: "exploration",
 		Rule: "well-formed generated streams (PAT before PMTs, multi-section and multi-packet units) x every number k of NextPacket/NextData/alternating calls before Rewind (0..total, all k for small streams, " +
 			"strided for larger) x {explicit, auto} x single and repeated rewinds x full and chunked seekable reads; the results after the rewind are compared with a fresh demuxer; " +
-			"distinct = hash of (stream, api, size mode, k); non-trivial = k>0",
+			"plus 1..65 537 rewinds in a row over a held partial unit (stage many-rewinds); distinct = hash of (stream, api, size mode, k); non-trivial = k>0",
 		Assumptions: []string{"the reader is an in-memory seekable tap; streams satisfy the property's precondition (PAT precedes PMTs)"},
 		Shards:      32,
 		Run:         runC20,
@@ -30,6 +31,7 @@ func init() {
 			need(m, &out, "rewind_state_before_first_call", 50)
 			need(m, &out, "repeated_rewinds", 200)
 			need(m, &out, "long_stream_rewinds", 500)
+			need(m, &out, "many_rewinds_cases", 40)
 			need(m, &out, "rewinds_on_streams_with_damaged_tables", 500)
 			need(m, &out, "rewinds_with_a_size_detection_would_not_find", 200)
 			return out
@@ -37,8 +39,94 @@ func init() {
 	})
 }
 
+// manyRewindsCase: Rewind called N times in a row (255, 256, 257, 65536 ... among the counts) at a point where a PID holds a partial
+// unit whose packet count is a multiple of 16 (so that the first packet read again continues the counter of what was held): whatever
+// survives the Nth rewind that did not survive the first shows as residue. Even cases take a generated stream and a random point.
+func manyRewindsCase(c *mon.Ctx, idx int64, r *rand.Rand, nrew int) {
+	var in []byte
+	k := 1
+	if idx%2 == 0 {
+		s := newLongStream()
+		j := 1 + r.IntN(3)
+		b := append(pesHeaderPTS(0xe0, 11, 0, false), longData(0x100, 1, (16*j+1)*184-14-r.IntN(100))...)
+		s.pes(0x101, 0xc0, 1, longData(0x101, 1, 100), true)
+		for q := 0; q < 16*j; q++ {
+			s.packet(0x100, q == 0, b[q*184:q*184+184])
+		}
+		s.pes(0x101, 0xc0, 2, longData(0x101, 2, 100), true)
+		s.packet(0x100, false, b[16*j*184:])
+		s.pes(0x100, 0xe0, 12, longData(0x100, 2, 300), false)
+		s.pes(0x101, 0xc0, 3, longData(0x101, 3, 50), true)
+		in = s.b
+	} else {
+		var gs *gen.Stream
+		for {
+			m := gen.RandomModel(r, gen.ModelOpts{MaxPES: 3, MaxPMT: 1, MaxSI: 1, MaxUnits: 12, MaxPESLen: 1500})
+			gs = m.Build(r)
+			if len(gs.Packets) >= 80 && len(gs.Packets) <= 400 {
+				break
+			}
+		}
+		in = gs.Bytes
+	}
+	for _, ps := range []int{188, 0} {
+		cfg := DemuxCfg{PacketSize: ps, Reader: "seek", API: "data"}
+		fresh := RunDemux(in, cfg)
+		if fresh.Panic != "" {
+			c.Violate("C20/fresh-run-panic", "many-rewinds", idx, fresh.Panic, nil)
+			return
+		}
+		if idx%2 == 1 {
+			k = r.IntN(fresh.Calls + 1)
+		}
+		data := map[string]any{"rewinds": nrew, "calls_before": k, "config": cfg.String(), "stream": mon.Hex(in, 1500)}
+		dmx, _ := NewDemuxerFor(in, cfg)
+		var got []Item
+		if p, v, st := mon.Guarded(func() {
+			for q := 0; q < k; q++ {
+				dmx.NextData()
+			}
+			for q := 0; q < nrew; q++ {
+				if n, err := dmx.Rewind(); n != 0 || err != nil {
+					panic(fmt.Sprintf("Rewind number %d = (%d, %v), want (0, nil)", q+1, n, err))
+				}
+			}
+			for q := 0; q < fresh.Calls+40; q++ {
+				d, err := dmx.NextData()
+				if errors.Is(err, astits.ErrNoMorePackets) {
+					break
+				}
+				got = append(got, Item{Data: d, Err: err})
+			}
+		}); p {
+			c.Violate("C20/many-rewinds/panic-or-rewind-result", "many-rewinds", idx, fmt.Sprintf("%v\n%s", v, st), data)
+			return
+		}
+		if d := itemsEqual(got, fresh.Items); d != "" {
+			c.Violate("C20/differs-from-fresh:after-many-rewinds:"+sizeCls(ps), "many-rewinds", idx, fmt.Sprintf("after %d rewinds in a row vs fresh demuxer: %s", nrew, d), data)
+		}
+		c.Count("many_rewinds_cases")
+		c.Add("rewinds_in_a_row", int64(nrew))
+		c.Max("most_rewinds_in_a_row", int64(nrew))
+		c.Case(mon.HashStr("manyrew", fmt.Sprint(idx, ps, nrew)), true)
+	}
+}
+
 func runC20(c *mon.Ctx) {
 	runC20Long(c)
+	{
+		counts := []int{1, 2, 15, 16, 17, 255, 256, 257, 512, 1024, 65535, 65536, 65537}
+		for i := int64(0); i < c.Pick(int64(2*len(counts)), int64(12*len(counts))); i++ {
+			if c.Mine("many-rewinds", i) {
+				r := c.Rng("many-rewinds", i)
+				n := counts[int(i/2)%len(counts)]
+				if int(i/2) >= len(counts) && i%3 == 0 {
+					n = 1 + r.IntN(70000)
+				}
+				manyRewindsCase(c, i, r, n)
+			}
+		}
+	}
 	n := c.Pick(300, 30000)
 	for i := int64(0); i < n; i++ {
 		if !c.Mine("streams", i) {
